@@ -263,7 +263,7 @@ Proof.
   intros asg F c ins fs pos kws. unfold elements. induction pos as [|t r IH]; intros i HF; cbn [map app].
   - apply (posvals_nil (eval_r ct)). intros x Hx. destruct (cplace_nofix_shape asg F c ins fs (map inr kws) i HF x Hx) as [e [He Hxe]].
     apply in_map_iff in He. destruct He as [[k t] [<- _]]. cbn [cassign_el] in Hxe. unfold cassign_kw in Hxe.
-    destruct (alookup k fs) as [v|]; [destruct (is_default ct c k v); [destruct (is_unm t); [|destruct (val_eqb (eval ct t) v); [destruct (f_update F)|destruct (f_fix F)]]|]|destruct (f_fix F)];
+    destruct (alookup k fs) as [v|]; [destruct (is_default ct c k v); [destruct (has_unm t); [|destruct (val_eqb (eval ct t) v); [destruct (f_update F)|destruct (f_fix F)]]|]|destruct (f_fix F)];
       cbn in Hxe; try tauto; destruct Hxe as [<-|[]]; discriminate.
   - cbn [cplace]. rewrite HF. cbn [app cassign_el]. unfold cassign_pos. rewrite HF. cbn [app]. unfold posvals, posvals_gen. cbn [flat_map app]. f_equal. apply IH. exact HF.
 Qed.
@@ -286,7 +286,7 @@ Proof.
     - unfold cassign_pos in Hx. rewrite HF in Hx. destruct Hx as [E|[]]. discriminate.
     - apply in_elements_kw in He. unfold cassign_kw in Hx. destruct (alookup k0 fs) as [v|] eqn:El.
       + destruct (is_default ct c k0 v).
-        * destruct (is_unm t); [destruct Hx as [E|[]]; injection E as <- <-; exists t; split; [exact He|apply eval_refl; exact Hct]|].
+        * destruct (has_unm t); [destruct Hx as [E|[]]; injection E as <- <-; exists t; split; [exact He|apply eval_refl; exact Hct]|].
           destruct (val_eqb (eval ct t) v); [destruct (f_update F)|rewrite HF in Hx]; try destruct Hx as [E|[]]; try destruct Hx;
             injection E as <- <-; exists t; (split; [exact He|apply eval_refl; exact Hct]).
         * destruct Hx as [E|[]]. injection E as <- <-. exists t. split; [exact He|]. apply (Ha k0 t v He). apply alookup_in. exact El.
@@ -305,7 +305,7 @@ Proof.
     { intros r Hr. apply Hni. apply in_map_iff. exists (k, eval_r ct r). split; [reflexivity|]. apply (in_kwvals' ct). exists r. split; [exact Hr|reflexivity]. }
     destruct (alookup k fs) as [v|] eqn:El; [|rewrite HF in Hin; exfalso; apply (Hkeep (QKeep t)); apply Hin; left; reflexivity].
     destruct (is_default ct c k v) eqn:Ed; [|exfalso; apply (Hkeep (asg t v)); apply Hin; left; reflexivity].
-    destruct (is_unm t); [exfalso; apply (Hkeep (QKeep t)); apply Hin; left; reflexivity|].
+    destruct (has_unm t); [exfalso; apply (Hkeep (QKeep t)); apply Hin; left; reflexivity|].
     destruct (val_eqb (eval ct t) v) eqn:Ev; [|rewrite HF in Hin; exfalso; apply (Hkeep (QKeep t)); apply Hin; left; reflexivity].
     unfold is_default in Ed. destruct (alookup k (ct c)) as [[d|]|] eqn:Ec; try discriminate.
     exists v, d. split; [reflexivity|]. split; [exact Ed|]. split; [exact Ev|].
